@@ -112,3 +112,15 @@ Proof.
       assert (inject_Z (fst c) == inject_Z 0)%Q by exact E0. apply (proj1 (inject_Z_injective _ _)) in H2. lia. }
   rewrite E. apply Qmult_0_r.
 Qed.
+
+(* the recorded deviation of navis' flow_centrality (model/Flow.v leaf_raw_impl) is confined to nodes with at most one tip below
+   them: everywhere else the variant computes the specified tip-to-tip count *)
+Lemma leaf_raw_impl_agrees t n : (1 < count_distal t n (leaves_of t))%Z -> leaf_raw_impl false t n = leaf_raw t n.
+Proof.
+  intros H. unfold leaf_raw_impl, leaf_raw. cbv zeta.
+  destruct (count_distal t n (leaves_of t) <=? 1)%Z eqn:E; [apply Z.leb_le in E; lia | reflexivity].
+Qed.
+Lemma leaf_raw_impl_terminal t n glob : (count_distal t n (leaves_of t) <= 1)%Z -> leaf_raw_impl glob t n = 0%Z.
+Proof.
+  intros H. unfold leaf_raw_impl. cbv zeta. apply Z.leb_le in H. rewrite H. reflexivity.
+Qed.
